@@ -13,7 +13,7 @@ import (
 func init() {
 	register("C05", PropCheck{
 		Title:      "Loaded symbols live exactly as long as their stack level",
-		Explain:    "Structural clauses: (R1) in the LOAD handler the external-code invoker is only reached on the error edge of Memory.Get(decoded symbol) - at most one call while the symbol is visible; (R2) Add receives the decoded symbol, the invoker's result and the decoded size; Update in the RELOAD handler receives the decoded symbol and the invoker's result; (R3) in the library every State.Down is accompanied by Memory.Push and every State.Up by Memory.Pop on every path (same function), and no other frame-count change (Memory.Reset) happens in vm/engine; (R4) every opcode handler that moves calls Vm.Reset (drops MAPs and menu) on every success path after the move; (R5) the RELOAD handler runs invoker -> Update -> Page.Map on the same symbol on every success path; (R6) the capacity oracle's ambiguous 0 result is interpreted as failure only where len(value) > 0 is known; (R3, addition) in the engine's reset State.Restart comes only after the level-by-level unwind (shared with C08 R2 / C20 R2); (R8) Page.Map stores the cache's current value for the symbol on every success path, so RELOAD's re-map refreshes what the page shows (added after seeded change C05-E, an early return for an already mapped symbol). (R9) a cache level begins empty: every store to Cache.Cache is an append of a freshly made map, a re-slice whose upper bound is a constant <= 1 or the field's own length minus a constant, or the constructor's literal (added after seeded change C05-I). R5 also requires that every success return of the RELOAD handler passes the external-code invoker (no condition may skip the reload; added after seeded change C05-L). The LOAD rules follow the handler into a second stage that only it calls, with operands traced through the stage's parameters.",
+		Explain:    "Structural clauses: (R1) in the LOAD handler the external-code invoker is only reached on the error edge of Memory.Get(decoded symbol) - at most one call while the symbol is visible; (R2) Add receives the decoded symbol, the invoker's result and the decoded size; Update in the RELOAD handler receives the decoded symbol and the invoker's result; (R3) in the library every State.Down is accompanied by Memory.Push and every State.Up by Memory.Pop on every path (same function), and no other frame-count change (Memory.Reset) happens in vm/engine; (R4) every opcode handler that moves calls Vm.Reset (drops MAPs and menu) on every success path after the move; (R5) the RELOAD handler runs invoker -> Update -> Page.Map on the same symbol on every success path; (R6) the capacity oracle's ambiguous 0 result is interpreted as failure only where len(value) > 0 is known; (R3, addition) in the engine's reset State.Restart comes only after the level-by-level unwind (shared with C08 R2 / C20 R2); (R8) Page.Map stores the cache's current value for the symbol on every success path, so RELOAD's re-map refreshes what the page shows (added after seeded change C05-E, an early return for an already mapped symbol). (R9) a cache level begins empty: every store to Cache.Cache is an append of a freshly made map, a re-slice whose upper bound is a constant <= 1 or the field's own length minus a constant, or the constructor's literal (added after seeded change C05-I). R5 also requires that every success return of the RELOAD handler passes the external-code invoker (no condition may skip the reload; added after seeded change C05-L). The LOAD rules follow the handler into a second stage that only it calls, with operands traced through the stage's parameters. (R10) a refused value is not shown either: no argument of an error or formatting call in Cache.Add/Update derives from the value parameter itself (its length is fine) - the VM renders error texts in front of the catch node (added after seeded change C05-N).",
 		NotDecided: "that values are gone after ascent for every history (follows from R3 with C09 R6 for the frame release); the limit comparisons themselves (C09 R1-R3); what the external function returns.",
 		Run:        runC05,
 	})
